@@ -25,7 +25,15 @@ EXPLANATION = (
 
 def self_assigns(fn: ast.FunctionDef) -> dict[str, ast.expr]:
     out: dict[str, ast.expr] = {}
-    for n in sorted((x for x in core.walk_fn(fn) if isinstance(x, ast.Assign)), key=lambda x: (x.lineno, x.col_offset)):
+    nodes = []
+    for x in core.walk_fn(fn):
+        if isinstance(x, ast.Assign):
+            nodes.append(x)
+        elif isinstance(x, ast.AnnAssign) and x.value is not None:      # `self._total: float = total`
+            y = ast.Assign(targets=[x.target], value=x.value)
+            y.lineno, y.col_offset = x.lineno, x.col_offset
+            nodes.append(y)
+    for n in sorted(nodes, key=lambda x: (x.lineno, x.col_offset)):
         if len(n.targets) == 1:
             t = n.targets[0]
             if isinstance(t, ast.Attribute) and nun(t.value) == "self":
